@@ -1015,6 +1015,10 @@ class FnAnalysis:
     def lemmas(self, s, ix, ln, b):
         """symbolic loop lemmas on canonical strings"""
         i_s, l_s = self.cn.c(ix), self.cn.c(ln)
+        # the slice metadata IS the length: one spelling, so that `i in 0..x.len() - k` meets `len(x[k..])`
+        i_s = re.sub(r'\bPtrMetadata\(', 'len(', i_s)
+        l_s0 = l_s
+        l_s = re.sub(r'\bPtrMetadata\(', 'len(', l_s)
         # FULL: x[i], i in 0..len(x)
         m = re.match(r'^each\(Range::Range\{0, (.*)\}\)$', i_s)
         if m and m.group(1) == l_s:
